@@ -353,8 +353,8 @@ func vfConcEndState[K Key](cache *Cache[K, uint64], c *vfConcCase, h *vfConcHist
 				drops++
 			}
 		}
-		if d := m.KeysAdded() - m.KeysEvicted(); d != uint64(len(pk)) {
-			add(vfV("C17", "keys-added-minus-evicted", "quiescent: KeysAdded %d - KeysEvicted %d != %d resident keys", m.KeysAdded(), m.KeysEvicted(), len(pk)))
+		if d := m.KeysAdded() - m.KeysEvicted(); d != uint64(len(mk)) {
+			add(vfV("C17", "keys-added-minus-evicted", "quiescent: KeysAdded %d - KeysEvicted %d != %d resident keys (accounting charges %d)", m.KeysAdded(), m.KeysEvicted(), len(mk), len(pk)))
 		}
 		if d := m.CostAdded() - m.CostEvicted(); d != uint64(cache.MaxCost()-cache.RemainingCost()) {
 			add(vfV("C17", "cost-added-minus-evicted", "quiescent: CostAdded-CostEvicted=%d, MaxCost-RemainingCost=%d", d, cache.MaxCost()-cache.RemainingCost()))
